@@ -137,6 +137,10 @@ def parse_step_obs(chk, tag, states=range(0, 16), checks="none", callbacks=False
                 add(st, "INT", 1, F["IGNORE"], 1, force10=False)
             if st == 10:
                 add(st, "INT", 1, F["IGNORE"] | F["COMMENTS"], 0)
+            if st == 12:
+                # at the nesting limit of declared sections: undeclared content may still nest deeper
+                add(st, "INT", 1, F["IGNORE"], 1000, force10=True)
+                add(st, "INT", 1, F["IGNORE"], 1000, force10=False)
     if tier != "quick":
         # thorough: the same states one nesting level down, more existing values, case-insensitive contexts
         if 1 in S:
